@@ -22,17 +22,19 @@ type Prop struct {
 }
 
 // deepen derives the thorough bounds of a directory harness from its quick
-// bounds: one more segment (at most 3) and one more version pattern (at most 4).
+// bounds: one more segment (at most 3) with the total number of messages capped
+// at what the quick shapes reach (so that the new layouts are the ones with more
+// segment boundaries, not bigger logs).
 func deepen(q B) B {
 	t := B{}
 	for k, v := range q {
 		t[k] = v
 	}
 	if v, ok := t["segs"]; ok && v < 3 {
+		if _, has := t["maxmsgs"]; !has {
+			t["maxmsgs"] = v * t["recs"]
+		}
 		t["segs"] = v + 1
-	}
-	if v, ok := t["vers"]; ok && v < 4 {
-		t["vers"] = v + 1
 	}
 	return t
 }
@@ -98,7 +100,7 @@ func init() {
 
 	addProp(&Prop{ID: "C03", DesignRef: "DESIGN.md §4 C03", Runs: []HarnessRun{idxConsume, segConsume, qConsume, cursor,
 		{Name: "h_step.Delete", Quick: B{"segs": 2, "recs": 2, "vers": 1, "profs": 1, "paramsets": 1, "rmindex": 1, "deletes": 1}, Thorough: B{"segs": 3, "recs": 2, "vers": 2, "profs": 1, "paramsets": 1, "rmindex": 1, "deletes": 2},
-			Split: []SplitDim{{"layout", numLayouts}, {"ver", same("vers")}, {"prof", same("profs")}, {"params", same("paramsets")}, {"rmindex", same("rmindex")}}, Reach: []string{"head-tail-deleted", "head-rebased", "reader-segment-emptied"}}}})
+			Split: []SplitDim{{"layout", numLayouts}, {"ver", same("vers")}, {"prof", same("profs")}, {"params", same("paramsets")}, {"rmindex", same("rmindex")}, {"session", two}}, Reach: []string{"head-tail-deleted", "head-rebased", "reader-segment-emptied", "read-before-delete"}}}})
 	addProp(&Prop{ID: "C04", DesignRef: "DESIGN.md §4 C04", Runs: []HarnessRun{idxGet, segGet, qGet}})
 	qTime := HarnessRun{Name: "h_log.QueryTime", Quick: dirQ, Thorough: dirT, Split: layoutSplit,
 		Reach: []string{"index-rebuilt", "no-live-message", "empty-head", "after-all", "equal-run", "multi-segment", "empty-head-with-older-segments"}}
@@ -151,10 +153,15 @@ func init() {
 			"CRC32C is an uninterpreted function; a changed record is assumed not to verify by an accidental checksum collision (probability 2^-32)",
 			"message times never decrease with offset and are not before 1970 when a time index is configured"}})
 	stepSplit := []SplitDim{{"layout", numLayouts}, {"ver", same("vers")}, {"prof", same("profs")}, {"params", same("paramsets")}, {"rmindex", same("rmindex")}}
+	stepSplitDelete := append(append([]SplitDim{}, stepSplit...), SplitDim{"session", two})
 	// bounds: segs/recs = directory shape; vers = version patterns (1: V2 only, 2: +all V1, 3: +V1 segments with a V2 head, 4: +V2 segments with a V1 head);
 	// paramsets = index configurations (1: times+keys, 2: +none, 3: +times only, 4: +keys only); rmindex = index-file removal patterns (1: none, 2: +all, 3: +first, 4: +head)
 	step := func(name string, q, t B, reach ...string) HarnessRun {
-		return HarnessRun{Name: "h_step." + name, Quick: q, Thorough: t, Split: stepSplit, Reach: reach}
+		sp := stepSplit
+		if name == "Delete" {
+			sp = stepSplitDelete
+		}
+		return HarnessRun{Name: "h_step." + name, Quick: q, Thorough: t, Split: sp, Reach: reach}
 	}
 	var stepT B // thorough = deepen(quick)
 	delReach := []string{"empty-set", "negative-offset", "deleted-some", "head-emptied", "reader-segment-emptied", "head-rebased", "reader-segment-rebased", "head-tail-deleted"}
@@ -179,8 +186,8 @@ func init() {
 		step("Delete", B{"segs": 2, "recs": 2, "vers": 1, "profs": 1, "paramsets": 1, "rmindex": 2, "deletes": 1}, stepT, "deleted-some"),
 		step("Migrate", B{"segs": 2, "recs": 2, "vers": 3, "profs": 1, "paramsets": 2, "rmindex": 2}, stepT, "migrate"),
 		step("Publish", B{"segs": 2, "recs": 1, "vers": 1, "profs": 1, "paramsets": 1, "rmindex": 4, "batch": 1}, stepT, "rollover"),
-		{Name: qKey.Name, Quick: B{"quick_skip": 1}, Thorough: qKey.Thorough, Split: qKey.Split, Reach: qKey.Reach},
-		{Name: qTime.Name, Quick: B{"quick_skip": 1}, Thorough: qTime.Thorough, Split: qTime.Split, Reach: qTime.Reach},
+		{Name: qKey.Name, Quick: B{"quick_skip": 1}, Thorough: qKey.Quick, Split: qKey.Split, Reach: qKey.Reach},
+		{Name: qTime.Name, Quick: B{"quick_skip": 1}, Thorough: qTime.Quick, Split: qTime.Split, Reach: qTime.Reach},
 	}, Assumptions: []string{"index timestamps are compared with message times only when times never decrease with offset (and are not before 1970)"}})
 	// C17: migration and mixed versions
 	addProp(&Prop{ID: "C17", DesignRef: "DESIGN.md §4 C17", Runs: []HarnessRun{
@@ -236,12 +243,13 @@ func init() {
 	}, Assumptions: []string{"keys of length 1 (symbolic byte, so repeats are chosen by the solver), values of length 1 or absent"}})
 	// C19 / C20
 	addProp(&Prop{ID: "C19", DesignRef: "DESIGN.md §4 C19", Runs: []HarnessRun{
-		{Name: "h_locks.LockMatrix", Quick: B{"steps": 3}, Thorough: B{"steps": 4}, Reach: []string{"rw-refused", "ro-refused", "second-reader", "closed", "failed-open", "matrix-done"}},
+		{Name: "h_locks.LockMatrix", Quick: B{"steps": 4}, Thorough: B{"steps": 5}, Split: []SplitDim{{"op0", func(map[string]int) int { return 6 }}}, Reach: []string{"rw-refused", "ro-refused", "second-reader", "closed", "failed-open", "matrix-done"}},
 		{Name: "h_locks.ReadonlySession", Quick: dirQ, Thorough: dirT, Split: layoutSplit, Reach: []string{"readonly-session", "without-index-files"}},
 	}, Assumptions: []string{"flock(2) semantics as modelled: per open file description, exclusive excludes all, shared excludes exclusive"}})
 	addProp(&Prop{ID: "C20", DesignRef: "DESIGN.md §4 C20", Runs: []HarnessRun{
-		{Name: "h_backup.Backup", Quick: B{"segs": 2, "recs": 2, "vers": 2, "profs": 1, "rounds": 1}, Thorough: B{"segs": 3, "recs": 2, "vers": 3, "profs": 2, "rounds": 2}, Split: layoutSplit,
-			Reach: []string{"log-backup", "dir-backup", "repeated-backup"}},
+		{Name: "h_backup.Backup", Quick: B{"segs": 2, "recs": 1, "vers": 2, "profs": 1, "rounds": 1, "pubs": 2}, Thorough: B{"segs": 2, "recs": 2, "vers": 2, "profs": 1, "rounds": 2, "pubs": 2},
+			Split: append(append([]SplitDim{}, layoutSplit...), SplitDim{"rmindex", two}, SplitDim{"vialog", two}),
+			Reach: []string{"log-backup", "dir-backup", "repeated-backup", "source-without-index-files"}},
 	}, Assumptions: []string{"file modification times are arbitrary non-decreasing clock values (two writes may get the same mtime); Chtimes sets them exactly"}})
 	// C05 / C06: crash points
 	tapsN := same("taps")
@@ -251,14 +259,14 @@ func init() {
 		return HarnessRun{Name: "h_crash." + name, Quick: q, Thorough: t, Split: crashSplit, Reach: reach}
 	}
 	addProp(&Prop{ID: "C05", DesignRef: "DESIGN.md §4 C05", Runs: []HarnessRun{
-		crash("Publish", 5, B{"segs": 2, "recs": 1, "vers": 1, "profs": 1, "publishes": 1, "batch": 2, "taps": 32}, B{"segs": 2, "recs": 2, "vers": 2, "profs": 1, "publishes": 2, "batch": 2, "taps": 64}, "crashed", "completed", "inflight-prefix-survived"),
-		crash("Delete", 5, B{"segs": 2, "recs": 2, "maxmsgs": 3, "vers": 1, "profs": 1, "taps": 40}, B{"segs": 2, "recs": 2, "vers": 2, "profs": 1, "taps": 64}, "crashed", "applied", "not-applied"),
-		crash("Migrate", 5, B{"segs": 2, "recs": 1, "vers": 2, "profs": 1, "taps": 40}, B{"segs": 2, "recs": 2, "vers": 2, "profs": 1, "taps": 64}, "crashed"),
-		crash("Recover", 5, B{"segs": 2, "recs": 1, "vers": 2, "profs": 1, "taps": 24}, B{"segs": 2, "recs": 2, "vers": 2, "profs": 1, "taps": 32}, "crashed"),
+		crash("Publish", 5, B{"segs": 2, "recs": 1, "vers": 1, "profs": 1, "publishes": 1, "batch": 2, "taps": 32}, B{"segs": 2, "recs": 1, "vers": 2, "profs": 1, "publishes": 2, "batch": 1, "taps": 48}, "crashed", "completed", "inflight-prefix-survived"),
+		crash("Delete", 5, B{"segs": 2, "recs": 2, "maxmsgs": 3, "vers": 1, "profs": 1, "taps": 40}, B{"segs": 2, "recs": 2, "maxmsgs": 3, "vers": 2, "profs": 1, "taps": 48}, "crashed", "applied", "not-applied"),
+		crash("Migrate", 5, B{"segs": 2, "recs": 1, "vers": 2, "profs": 1, "taps": 40}, B{"segs": 2, "recs": 2, "maxmsgs": 3, "vers": 2, "profs": 1, "taps": 48}, "crashed"),
+		crash("Recover", 5, B{"segs": 2, "recs": 2, "maxmsgs": 2, "vers": 2, "profs": 1, "taps": 24}, B{"segs": 2, "recs": 2, "maxmsgs": 2, "vers": 2, "profs": 1, "taps": 32}, "crashed"),
 	}, Assumptions: []string{"crash model of the property: file-system calls take effect in program order; the process may die right before any mutating call of klevdb (os.OpenFile, Write, Sync, Rename, Remove, Chtimes, MkdirAll, io.Copy); an append may be torn at any byte except inside the first 8 bytes of a file; nothing else is lost (loss of unsynced data is C06)",
 		"keys pairwise different and times strictly increasing in the crash workloads (coincidences are the subject of C09/C10)"}})
 	addProp(&Prop{ID: "C06", DesignRef: "DESIGN.md §4 C06", Runs: []HarnessRun{
-		crash("Publish", 6, B{"segs": 2, "recs": 1, "maxmsgs": 1, "vers": 1, "profs": 1, "publishes": 1, "batch": 1, "taps": 32}, B{"segs": 2, "recs": 2, "vers": 2, "profs": 1, "publishes": 2, "batch": 2, "taps": 64}, "crashed", "completed", "synced"),
+		crash("Publish", 6, B{"segs": 2, "recs": 1, "maxmsgs": 1, "vers": 1, "profs": 1, "publishes": 1, "batch": 1, "taps": 32}, B{"segs": 2, "recs": 1, "vers": 2, "profs": 1, "publishes": 2, "batch": 1, "taps": 48}, "crashed", "completed", "synced"),
 		crash("Publish", 6, B{"segs": 1, "recs": 1, "vers": 1, "profs": 1, "publishes": 2, "fix.publishes": 1, "fix.roll": 1, "batch": 1, "taps": 40}, B{"quick_skip": 0, "segs": 1, "recs": 1, "vers": 1, "profs": 1, "publishes": 2, "batch": 1, "taps": 40}, "synced"),
 		crash("Delete", 6, B{"segs": 2, "recs": 1, "vers": 1, "profs": 1, "taps": 40}, B{"segs": 2, "recs": 2, "maxmsgs": 3, "vers": 1, "profs": 1, "taps": 48}, "crashed", "applied"),
 	}, Assumptions: []string{"tail-loss model of the property: at the crash every file is independently cut back to any length between its last fsynced length and its current length (the first 8 bytes of a file are atomic); directory operations are durable in program order"}})
@@ -267,9 +275,11 @@ func init() {
 	addProp(&Prop{ID: "C18", DesignRef: "DESIGN.md §4 C18, §10.6", Runs: []HarnessRun{
 		{Name: "h_sync.NotifyImmediate", Quick: B{"sched_replay": 1}, Reach: []string{"below", "after-close"}},
 		{Name: "h_sync.BlockingImmediate", Quick: B{"sched_replay": 1}, Reach: []string{"immediate"}},
-		{Name: "h_sync.NotifyWake", Quick: B{"waiters": 1, "publishers": 2, "preemptions": 1, "sched_replay": 1}, Thorough: B{"waiters": 2, "publishers": 2, "preemptions": 2, "sched_replay": 1},
+		{Name: "h_sync.NotifyWake", Quick: B{"waiters": 1, "publishers": 2, "preemptions": 1, "sched_replay": 1}, Thorough: B{"waiters": 2, "publishers": 2, "preemptions": 1, "sched_replay": 1},
 			Split: []SplitDim{{"waiters", same("waiters")}, {"publishers", same("publishers")}, {"close", two}}, Reach: []string{"still-parked", "returned"}},
-		{Name: "h_sync.BlockingWake", Quick: B{"waiters": 1, "publishers": 1, "preemptions": 1, "sched_replay": 1}, Thorough: B{"waiters": 2, "publishers": 2, "preemptions": 2, "sched_replay": 1},
+		{Name: "h_sync.NotifyWake", Quick: B{"quick_skip": 1}, Thorough: B{"waiters": 1, "publishers": 1, "preemptions": 2, "sched_replay": 1},
+			Split: []SplitDim{{"close", two}}, Reach: []string{"returned"}},
+		{Name: "h_sync.BlockingWake", Quick: B{"waiters": 1, "publishers": 1, "preemptions": 1, "sched_replay": 1}, Thorough: B{"waiters": 2, "publishers": 1, "preemptions": 1, "sched_replay": 1},
 			Split: []SplitDim{{"waiters", same("waiters")}, {"publishers", same("publishers")}, {"close", two}, {"cancel", two}, {"woff", three}},
 			Reach: []string{"still-parked", "returned", "cancelled", "woken-below-offset"}},
 	}, Assumptions: []string{"sequential consistency; context switches only at visible operations (atomics, channel operations, select, mutex operations, goroutine start/exit)",
@@ -281,10 +291,10 @@ func init() {
 	pairSplit := []SplitDim{{"layout", numLayouts}, {"ver", same("vers")}, {"prof", same("profs")}, {"rmindex", two}, {"roll", two}, {"opa", nine}, {"opb", nine}}
 	addProp(&Prop{ID: "C08", DesignRef: "DESIGN.md §4 C08, §10.6", Runs: []HarnessRun{
 		{Name: "h_conc.Pair", Quick: B{"segs": 2, "recs": 1, "vers": 1, "profs": 1, "preemptions": 1, "sched_replay": 1, "pairs_mutating_only": 1},
-			Thorough: B{"segs": 2, "recs": 2, "maxmsgs": 3, "vers": 1, "profs": 1, "preemptions": 2, "sched_replay": 1}, Split: pairSplit,
+			Thorough: B{"segs": 2, "recs": 2, "maxmsgs": 3, "vers": 1, "profs": 1, "preemptions": 1, "sched_replay": 1}, Split: pairSplit,
 			Reach: []string{"pair-done", "two-publishers", "consume-concurrent", "tail-consume", "index-files-removed"}},
-		{Name: "h_conc.Pair", Quick: B{"quick_skip": 1}, Thorough: B{"segs": 1, "recs": 2, "vers": 1, "profs": 1, "preemptions": 2, "split_writes": 1, "sched_replay": 1, "fix.rmindex": 0, "fix.roll": 0, "fix.opa": 0}, 
-			Split: []SplitDim{{"layout", numLayouts}, {"ver", same("vers")}, {"prof", same("profs")}, {"opb", nine}}, Reach: []string{"pair-done"}},
+		{Name: "h_conc.Pair", Quick: B{"quick_skip": 1}, Thorough: B{"segs": 1, "recs": 2, "vers": 1, "profs": 1, "preemptions": 2, "split_writes": 1, "sched_replay": 1, "fix.rmindex": 0, "fix.roll": 0, "fix.opa": 0, "fix.layout": 2},
+			Split: []SplitDim{{"ver", same("vers")}, {"prof", same("profs")}, {"opb", nine}}, Reach: []string{"pair-done"}},
 	}, Assumptions: []string{"PARTIAL claim: two concurrent calls (every pair with at least one of Publish / Delete in quick) on small directories; context switches only at visible operations (mutex, atomic, channel operations and file-system calls), sequential consistency, bounded preemptions; data-race freedom (lockset) and longer histories are NOT decided",
 		"schedule counterexamples are validated by concrete re-execution of the real SSA under the model's inputs and the recorded schedule",
 		"thorough adds split writes: an append may become visible in two steps (as at a page boundary)"}})
